@@ -17,6 +17,7 @@ package originium
 import (
 	"errors"
 
+	"github.com/B1NARY-GR0UP/originium/pkg/verifhook"
 	"github.com/B1NARY-GR0UP/originium/types"
 	"github.com/B1NARY-GR0UP/originium/utils"
 )
@@ -60,10 +61,12 @@ func (t *Txn) Commit() error {
 
 	orc := t.db.oracle
 
+	verifhook.At("cm.lock.pre")
 	orc.writeLock.Lock()
 	defer orc.writeLock.Unlock()
 
 	commitTs, hasConflict := orc.newCommitTs(t)
+	verifhook.At("cm.decided", commitTs, hasConflict, t.readTs)
 	if hasConflict {
 		return ErrConflictTxn
 	}
@@ -85,6 +88,7 @@ func (t *Txn) Commit() error {
 	t.db.rawset(entries...)
 
 	orc.doneCommit(commitTs)
+	verifhook.At("cm.done", commitTs)
 
 	return nil
 }
